@@ -564,9 +564,9 @@ fn area_inputs(r: &mut Rng, op: usize) -> Vec<Float> {
 fn corpus_seg() -> Vec<(&'static str, Vec<Float>)> {
     let f = |v: [f64; 15]| -> Vec<Float> { v.iter().map(|x| *x as Float).collect() };
     vec![
-        // F5: one unit apart, reported as crossing at (0.5, 0, 0)
+        // F5 (fixed by ec384e6; regression witness): one unit apart, was reported as crossing at (0.5, 0, 0)
         ("corpus-skew", f([0., 0., 0., 1., 0., 0., 0.5, -1., 1., 0.5, 1., 1., 0.5, 0., 0.])),
-        // F5: common start point -> None
+        // F5 (fixed by ec384e6; regression witness): common start point, was None
         ("corpus-common-start", f([0., 0., 0., 1., 0., 0., 0., 0., 0., 0., 1., 0., 0., 0., 0.])),
         // contains_point parametrised on a noise component
         ("corpus-noise-axis", f([0., 0., 0., 1e-15, 1., 0., 5., 5., 5., 6., 6., 5., 0., 2., 0.])),
